@@ -268,12 +268,39 @@ fn build(phase: u8, p: &Parts) -> ContainerParser {
     ContainerParser { state, jxlp_index_state, previous_consumed_bytes: p.pcb }
 }
 
-/// Any parser state in phase `phase` satisfying Inv.
-fn any_inv_state(phase: u8) -> (Parts, ContainerParser) {
+/// The abstract state that `build(phase, p)` has -- written out so that its discriminant is a constant for
+/// CBMC (abs() has to read DetectState's niche-encoded discriminant, which CBMC treats as symbolic).
+fn abs_of_parts(phase: u8, p: &Parts) -> AState {
+    let ph = match phase {
+        0 => Ph::Sig,
+        1 => Ph::Hdr,
+        2 => Ph::Idx { ty: p.ty, size: p.size, is_last: p.size.is_none() },
+        3 => Ph::Aux { ty: p.ty, size: p.size, is_last: p.size.is_none(), inner: p.inner, left: p.left },
+        _ => Ph::Code { kind: p.kind, left: p.left, pending: p.pending },
+    };
+    let seq = match p.jtag {
+        0 => Seq::Initial,
+        1 => Seq::SingleJxlc,
+        2 => Seq::Jxlp(p.jidx),
+        _ => Seq::Finished,
+    };
+    AState { ph, seq }
+}
+
+/// Any abstract state in phase `phase` satisfying Inv (and the parts to build the real one from).
+fn any_inv_abs(phase: u8) -> (Parts, AState) {
     let p = any_parts();
+    let s = abs_of_parts(phase, &p);
+    kani::assume(inv_abs(&s));
+    (p, s)
+}
+
+/// Any parser state in phase `phase` satisfying Inv, with its abstraction.
+fn any_inv_state(phase: u8) -> (AState, ContainerParser) {
+    let (p, s) = any_inv_abs(phase);
     let parser = build(phase, &p);
-    kani::assume(inv(&parser));
-    (p, parser)
+    assert!(abs(&parser) == s, "harness self-check: abs(build(parts)) == abs_of_parts(parts)");
+    (s, parser)
 }
 
 // ------------------------------------------------------------------------------------------------
@@ -385,6 +412,17 @@ fn event(s: AState, pos: usize, e: Ev) -> SpecStep {
 fn spec_step(s0: AState, buf: &[u8]) -> SpecStep {
     match s0.ph {
         Ph::Sig => spec_sig(s0, buf),
+        Ph::Hdr => spec_hdr(s0, buf),
+        Ph::Idx { .. } => spec_idx(s0, buf, 0),
+        Ph::Aux { .. } => spec_aux(s0, buf, 0),
+        Ph::Code { .. } => spec_code(s0, buf, 0),
+    }
+}
+
+/// spec_step for a state that is known not to be Ph::Sig (cheaper for CBMC: no signature comparison loops).
+fn spec_step_after_signature(s0: AState, buf: &[u8]) -> SpecStep {
+    match s0.ph {
+        Ph::Sig => reject(s0, 0, 0xfe),
         Ph::Hdr => spec_hdr(s0, buf),
         Ph::Idx { .. } => spec_idx(s0, buf, 0),
         Ph::Aux { .. } => spec_aux(s0, buf, 0),
@@ -576,11 +614,10 @@ fn step_contract(case: Case) {
     let buf = &data[..len];
     let base = data.as_ptr();
 
-    let (parts, mut parser) = any_inv_state(case.phase);
+    let (before, mut parser) = any_inv_state(case.phase);
     if case.plain_aux {
-        kani::assume(parts.ty != BROB);
+        kani::assume(!matches!(before.ph, Ph::Aux { ty: BROB, .. }));
     }
-    let before = abs(&parser);
     let pcb0 = parser.previous_consumed_bytes;
     let finished0: bool = kani::any();
 
@@ -594,7 +631,12 @@ fn step_contract(case: Case) {
     let after = abs(&parser);
 
     kani::cover!(matches!(&r, Some(Ok(_))));
-    kani::cover!(r.is_none() && !finished0);
+    if case.exact_len.is_none() {
+        kani::cover!(r.is_none() && !finished0);
+    }
+    if case.phase == 1 || case.phase == 2 || (case.phase == 3 && !case.plain_aux) {
+        kani::cover!(matches!(&r, Some(Err(_))));
+    }
 
     if finished0 {
         assert!(r.is_none() && after == before && pcb1 == pcb0 && rem_len == len && finished1,
@@ -743,8 +785,7 @@ fn init_establishes_inv() {
 
     let phase: u8 = kani::any();
     kani::assume(phase <= 4);
-    let (_parts, mut q) = any_inv_state(phase);
-    let before = abs(&q);
+    let (before, mut q) = any_inv_state(phase);
     let k = q.kind();
     let expect = match before.ph { Ph::Sig => 0, Ph::Code { kind, .. } => kind, _ => 2 };
     assert!(kind_no(k) == expect, "[C10] kind(): unknown before the signature, container inside boxes, else as detected");
@@ -767,7 +808,7 @@ fn err_then_refeed() {
     // InAuxBox (any Inv state of that phase), then exactly the 4 bytes of the original type
     let first: [u8; 4] = kani::any();
     let second: [u8; 4] = kani::any();
-    let (_parts, mut parser) = any_inv_state(3);
+    let (_s, mut parser) = any_inv_state(3);
     let rejected = {
         let mut it = parser.feed_bytes(&first);
         let r = it.next();
@@ -779,12 +820,15 @@ fn err_then_refeed() {
     if !rejected {
         return;
     }
-    assert!(inv(&parser), "[C01] Inv holds after a brob box of a reserved type was rejected");
+    let inv_after_error = inv(&parser);
     // no panic (bytes_left -= 4 on a box that has fewer than 4 bytes left)
-    let mut it = parser.feed_bytes(&second);
-    let r = it.next();
-    kani::cover!(r.is_some());
-    std::mem::forget(r);
+    {
+        let mut it = parser.feed_bytes(&second);
+        let r = it.next();
+        kani::cover!(r.is_some());
+        std::mem::forget(r);
+    }
+    assert!(inv_after_error, "[C01] Inv holds after a brob box of a reserved type was rejected");
 }
 
 // ------------------------------------------------------------------------------------------------
@@ -794,16 +838,19 @@ fn err_then_refeed() {
 // contracts above prove that every `next()` from an Inv state on a buffer of <= MAXB bytes behaves exactly
 // like spec_step and re-establishes Inv -- so a feed of the real parser is the iteration of spec_step
 // (`spec_feed` below). The relational contract is proved on that iteration, for every Inv state, every
-// buffer B of <= MAXB bytes and every cut k:
+// buffer B and every cut k:
 //
 //     feed(S, B)   ==   feed(S, B[..k]) ; feed(S', B[c..])      where c = bytes consumed by the first feed
+// (B of <= CHUNK_B bytes here; the one-step lemma further down removes the length bound)
 //
 // (the API: bytes not consumed are offered again, followed by the new bytes). "==" is: same error status,
 // same event sequence once adjacent payload events are merged -- payloads are compared as ranges of B, which
 // is stronger than comparing their bytes --, same final state, same total consumption.
 // Any breaking change of the real parser is caught by the step contracts (they carry the C09 tag too).
 // ------------------------------------------------------------------------------------------------
-const MAXEV: usize = 10;
+/// feed-level harness: buffers of <= CHUNK_B bytes yield at most 5 events (+ 1 quiet step)
+const CHUNK_B: usize = 16;
+const MAXEV: usize = 6;
 
 struct Log {
     n: usize,
@@ -858,10 +905,10 @@ fn shifted(e: Ev, by: usize) -> Ev {
 fn spec_feed(s: &mut AState, buf: &[u8], origin: usize, log: &mut Log) -> usize {
     let mut pos = 0usize;
     let mut i = 0;
-    // 24 bytes yield at most 8 events (see MAXEV), + 1 quiet step
     while i < MAXEV {
         i += 1;
-        let st = spec_step(*s, &buf[pos..]);
+        // only the first step of a feed can still be waiting for the signature (a quiet step ends the feed)
+        let st = if i == 1 { spec_step(*s, &buf[pos..]) } else { spec_step_after_signature(*s, &buf[pos..]) };
         match st.out {
             Out::Quiet => {
                 *s = st.next;
@@ -883,13 +930,12 @@ fn spec_feed(s: &mut AState, buf: &[u8], origin: usize, log: &mut Log) -> usize 
 }
 
 fn chunking_contract(phase: u8) {
-    let data: [u8; MAXB] = kani::any();
+    let data: [u8; CHUNK_B] = kani::any();
     let len: usize = kani::any();
     let k: usize = kani::any();
-    kani::assume(len <= MAXB && k <= len);
+    kani::assume(len <= CHUNK_B && k <= len);
 
-    let (_parts, parser) = any_inv_state(phase);
-    let s0 = abs(&parser);
+    let (_parts, s0) = any_inv_abs(phase);
 
     // at once
     let mut sa = s0;
@@ -949,4 +995,98 @@ fn chunking_from_aux_box() {
 #[kani::unwind(14)]
 fn chunking_from_codestream() {
     chunking_contract(4);
+}
+
+// ------------------------------------------------------------------------------------------------
+// C09, one step: the lemma from which chunking independence of feeds of ANY length follows by induction
+// on the steps of the single feed. S in Inv, B a buffer, P = B[..k] a prefix:
+//   (q) step(S,P) quiet, having consumed c and reached S'  ==>  step(S', B[c..]) == step(S,B) shifted by c
+//   (r) step(S,P) rejects                                  ==>  step(S,B) rejects the same way
+//   (e) step(S,P) is a non-payload event                   ==>  step(S,B) is identical
+//   (p) step(S,P) is a payload event                       ==>  step(S,B) is the same event, possibly longer;
+//        if longer, P was used up and step(S', B[k..]) delivers exactly the missing bytes and ends in the
+//        same state with the same total consumption.
+// Proved on spec_step, which the step contracts equate with ParseEvents::next.
+// ------------------------------------------------------------------------------------------------
+fn same_step_shifted(a: &SpecStep, b: &SpecStep, by: usize) -> bool {
+    // a (run on the tail that starts `by` bytes into B) against b (run on B)
+    let out_ok = match (a.out, b.out) {
+        (Out::Quiet, Out::Quiet) => true,
+        (Out::Reject(x), Out::Reject(y)) => return x == y,
+        (Out::Event(x), Out::Event(y)) => shifted(x, by) == y,
+        _ => false,
+    };
+    out_ok && a.consumed + by == b.consumed && a.next == b.next
+}
+
+fn prefix_step_contract(phase: u8) {
+    let data: [u8; MAXB] = kani::any();
+    let len: usize = kani::any();
+    let k: usize = kani::any();
+    kani::assume(len <= MAXB && k <= len);
+    let (_parts, s) = any_inv_abs(phase);
+    let whole = &data[..len];
+    let sp = spec_step(s, &data[..k]);
+    let sb = spec_step(s, whole);
+    kani::cover!(matches!(sp.out, Out::Quiet) && sp.consumed > 0 && matches!(sb.out, Out::Event(_)));
+    match sp.out {
+        Out::Quiet => {
+            assert!(sp.consumed <= k && inv_abs(&sp.next), "[C09,C01] a quiet step stays inside its buffer and inside Inv");
+            let cont = if phase == 0 { spec_step(sp.next, &whole[sp.consumed..]) } else { spec_step_after_signature(sp.next, &whole[sp.consumed..]) };
+            assert!(same_step_shifted(&cont, &sb, sp.consumed),
+                "[C09] after 'need more data', re-offering the unconsumed bytes plus new ones continues exactly like the single feed");
+        }
+        Out::Reject(x) => assert!(matches!(sb.out, Out::Reject(y) if x == y), "[C09] a prefix is rejected only if the whole buffer is"),
+        Out::Event(e) => match e {
+            Ev::Data { off, len: l, .. } | Ev::Code { off, len: l } => {
+                let (same_kind, lb) = match (e, sb.out) {
+                    (Ev::Data { ty: a, .. }, Out::Event(Ev::Data { ty: b, off: ob, len: lb })) => (a == b && ob == off, lb),
+                    (Ev::Code { .. }, Out::Event(Ev::Code { off: ob, len: lb })) => (ob == off, lb),
+                    _ => (false, 0),
+                };
+                assert!(same_kind && lb >= l, "[C09] a payload event on a prefix is the beginning of the payload event on the whole buffer");
+                if lb == l {
+                    assert!(sp.consumed == sb.consumed && sp.next == sb.next, "[C09] same payload, same state");
+                } else {
+                    assert!(sp.consumed == k, "[C09] a payload is cut short only by the end of the buffer");
+                    let cont = spec_step_after_signature(sp.next, &whole[k..]);
+                    let rest_ok = match (e, cont.out) {
+                        (Ev::Data { ty: a, .. }, Out::Event(Ev::Data { ty: b, off: 0, len: lc })) => a == b && l + lc == lb,
+                        (Ev::Code { .. }, Out::Event(Ev::Code { off: 0, len: lc })) => l + lc == lb,
+                        _ => false,
+                    };
+                    assert!(rest_ok, "[C09] the next feed delivers exactly the rest of the payload");
+                    assert!(k + cont.consumed == sb.consumed && cont.next == sb.next, "[C09] split payload: same final state and total consumption");
+                }
+            }
+            _ => assert!(sb.out == sp.out && sb.consumed == sp.consumed && sb.next == sp.next,
+                "[C09] an event decided on a prefix is the event decided on the whole buffer"),
+        },
+    }
+}
+
+#[kani::proof]
+#[kani::unwind(14)]
+fn prefix_step_signature() {
+    prefix_step_contract(0);
+}
+#[kani::proof]
+#[kani::unwind(2)]
+fn prefix_step_box_header() {
+    prefix_step_contract(1);
+}
+#[kani::proof]
+#[kani::unwind(2)]
+fn prefix_step_jxlp_index() {
+    prefix_step_contract(2);
+}
+#[kani::proof]
+#[kani::unwind(2)]
+fn prefix_step_aux_box() {
+    prefix_step_contract(3);
+}
+#[kani::proof]
+#[kani::unwind(2)]
+fn prefix_step_codestream() {
+    prefix_step_contract(4);
 }
